@@ -5,7 +5,7 @@ import ast
 import copy
 
 from harness import impl
-from harness.common import rng, short
+from harness.common import quick_scale, rng, short
 from harness.gen import corpus, pyprog, xonshgen
 
 HOLE = "HOLE_xq"
@@ -162,7 +162,7 @@ def check_case(ctx, mode, fills, variant="shipped"):
 
 def build_inputs(tier):
     r = rng("C05")
-    N = 1 if tier == "quick" else 30
+    N = quick_scale() if tier == "quick" else 30
     cases = []
     for x, t, where in corpus.xonsh_pairs():
         cases.append(("pair", "{H}\n" if where == "stmts" else "{H}\n", "exec", [("pair", x, t, "stmt")]))
